@@ -562,5 +562,56 @@ m("c20-ethcall-keeper-chainid", "C20", "x/evm/keeper/grpc_query.go",
   "\tchainID := k.ChainID()\n\tif req.ChainId != 0 {\n\t\tchainID = big.NewInt(req.ChainId)\n\t}\n\tcfg, err := k.EVMConfig(ctx, GetProposerAddress(ctx, req.ProposerAddress), chainID)\n\tif err != nil {\n\t\treturn nil, status.Error(codes.Internal, err.Error())",
   "EthCall#EVMConfig-chain-id", "eth_call falls back to the keeper's in-memory chain id (nil right after a restart)")
 
+# ---------------- rules added from the wave-3 seeds ----------------
+m("c02-suicide-balance-not-restored", "C02", "x/evm/statedb/journal.go",
+  "\t\tobj.suicided = ch.prev\n\t\tobj.setBalance(ch.prevbalance)\n", "\t\tobj.suicided = ch.prev\n\t\t_ = ch.prevbalance\n",
+  "entry-covers-writes", "a reverted SELFDESTRUCT leaves the contract's cached balance at zero: Commit burns its coins")
+m("c02-create-drops-balance", "C02", "x/evm/statedb/statedb.go",
+  "\tif prev != nil {\n\t\tnewObj.setBalance(prev.account.Balance)\n\t}", "\tif prev != nil && prev.account.Nonce > 0 {\n\t\tnewObj.setBalance(prev.account.Balance)\n\t}",
+  "carries-balance", "CREATE onto a funded address that never sent a transaction starts from zero")
+m("c04-cancel-uses-delegate-grant", "C04", "precompiles/staking/tx.go",
+  "stakeAuthz, expiration, err = authorization.CheckAuthzAndAllowanceForGranter(ctx, p.AuthzKeeper, contract.CallerAddress, delegatorHexAddr, &msg.Amount, CancelUnbondingDelegationMsg)",
+  "stakeAuthz, expiration, err = authorization.CheckAuthzAndAllowanceForGranter(ctx, p.AuthzKeeper, contract.CallerAddress, delegatorHexAddr, &msg.Amount, DelegateMsg)",
+  "type-url", "cancel-unbonding authorised by a delegate approval")
+m("c04-update-drops-expiration", "C04", "precompiles/ics20/approve_common.go",
+  "err = authzKeeper.SaveGrant(ctx, grantee.Bytes(), granter.Bytes(), resp.Updated, expiration)", "err = authzKeeper.SaveGrant(ctx, grantee.Bytes(), granter.Bytes(), resp.Updated, nil)\n\t\t_ = expiration",
+  "SaveGrant-expiration", "a partially used ICS-20 approval never expires")
+m("c08-haslocked-net-of-delegations", "C08", "x/vesting/types/clawback_vesting_account.go",
+  "\treturn !va.GetLockedUpCoins(blockTime).IsZero()", "\treturn !va.LockedCoins(blockTime).IsZero()",
+  "HasLockedCoins#definition", "an account whose locked coins are all delegated converts into a plain account")
+m("c11-whole-amount-fastpath", "C11", "x/liquidvesting/types/schedule.go",
+  "\tcopy(decreasedPeriods, minuendPeriods)\n", "\tif subtrahendAmount.Equal(minuendTotalAmount) {\n\t\tfor i, p := range minuendPeriods {\n\t\t\tdecreasedPeriods[i] = sdkvesting.Period{Length: p.Length, Amount: sdk.NewCoins()}\n\t\t\tdiffPeriods = append(diffPeriods, sdkvesting.Period{Length: p.Length, Amount: p.Amount})\n\t\t}\n\t\treturn decreasedPeriods, diffPeriods, nil\n\t}\n\tcopy(decreasedPeriods, minuendPeriods)\n",
+  "amounts-in-requested-denom", "full liquidation moves every denomination of each period")
+m("c12-genesis-total-from-document", "C12", "x/ucdao/keeper/genesis.go",
+  "\tfor _, supply := range totalBalance {", "\tfor _, supply := range genState.TotalBalance {",
+  "total-from-balances", "a genesis without total_balance records no total")
+m("c12-transfer-walks-holdings", "C12", "x/ucdao/keeper/keeper.go",
+  "\t\tok, foundInBalance := balances.Find(coin.Denom)\n\t\tif !ok {\n\t\t\treturn nil, sdkerrors.Wrapf(types.ErrInsufficientFunds, \"zero balance of %s\", coin.Denom)\n\t\t}\n",
+  "\t\tok, foundInBalance := balances.Find(coin.Denom)\n\t\tif !ok {\n\t\t\tcontinue\n\t\t}\n",
+  "every-requested-coin-checked", "a requested denomination the owner does not hold is credited without being debited")
+m("c13-zero-cap-unlimited", "C13", "x/coinomics/keeper/inflation.go",
+  "\tif bankTotalSupply.Add(blockMint).GT(maxSupply) {", "\tif maxSupply.IsPositive() && bankTotalSupply.Add(blockMint).GT(maxSupply) {",
+  "cap-compared-before-every-mint", "a zero maximum supply switches the cap off")
+m("c15-blocked-skips-permissionless", "C15", "app/app.go",
+  "\tfor _, acc := range accs {\n\t\tblockedAddrs[authtypes.NewModuleAddress(acc).String()] = true\n\t}", "\tfor _, acc := range accs {\n\t\tif len(maccPerms[acc]) == 0 {\n\t\t\tcontinue\n\t\t}\n\t\tblockedAddrs[authtypes.NewModuleAddress(acc).String()] = true\n\t}",
+  "no-account-skipped", "module accounts without permissions (distribution, fee collector) can receive plain transfers")
+m("c16-ics20-own-timeout-check", "C16", "precompiles/ics20/tx.go",
+  "\t// isCallerSender is true when the contract caller is the same as the sender\n", "\tif msg.TimeoutTimestamp != 0 && msg.TimeoutTimestamp <= uint64(ctx.BlockTime().UnixNano()) {\n\t\treturn nil, channeltypes.ErrPacketTimeout\n\t}\n\t// isCallerSender is true when the contract caller is the same as the sender\n",
+  "no-extra-rejection", "the precompile rejects a timeout the native message accepts")
+m("c16-voucher-hash-first", "C16", "x/erc20/keeper/token_pairs.go",
+  "\tid := k.GetDenomMap(ctx, denom)\n\tif len(id) == 0 {\n\t\t// if the denom is not registered, check if it is an IBC voucher\n\t\treturn utils.GetIBCDenomAddress(denom)\n\t}\n",
+  "\tif addr, err := utils.GetIBCDenomAddress(denom); err == nil {\n\t\treturn addr, nil\n\t}\n\tid := k.GetDenomMap(ctx, denom)\n\tif len(id) == 0 {\n\t\treturn utils.GetIBCDenomAddress(denom)\n\t}\n",
+  "registered-pair-first", "a registered IBC voucher is listed under its hash-derived address")
+m("c17-used-clamped-to-wanted", "C17", "x/feemarket/keeper/abci.go",
+  "\tgasUsed := sdkmath.NewIntFromUint64(ctx.BlockGasMeter().GasConsumedToLimit())\n", "\tgasUsed := sdkmath.MinInt(sdkmath.NewIntFromUint64(ctx.BlockGasMeter().GasConsumedToLimit()), gasWanted)\n",
+  "gas-figure", "gas used clamped to gas wanted: blocks full of rejected transactions look empty")
+m("c20-feemarket-memstore", "C20", "app/app.go",
+  "\tmemKeys := sdk.NewMemoryStoreKeys(capabilitytypes.MemStoreKey)", "\tmemKeys := sdk.NewMemoryStoreKeys(capabilitytypes.MemStoreKey, \"mem_feemarket\")",
+  "memory-store/mem_feemarket", "a module memory store: empty after a restart")
+m("c01-decorator-tracker-field", "C01", "app/ante/evm/vesting.go",
+  "\taccountExpenses := make(map[string]*ethVestingExpenseTracker)\n", "\taccountExpenses := vtdShared\n\tdefer func() {\n\t\tfor a := range vtdShared {\n\t\t\tdelete(vtdShared, a)\n\t\t}\n\t}()\n",
+  "write-", "per-transaction tracker kept in a package-level map shared by CheckTx and DeliverTx",
+  extra=[("// NewEthVestingTransactionDecorator returns", "var vtdShared = map[string]*ethVestingExpenseTracker{}\n\n// NewEthVestingTransactionDecorator returns")])
+
 json.dump(M, open('/verif/mutants.json', 'w'), indent=1)
 print(len(M), "mutants written")
